@@ -156,6 +156,8 @@ func (e *Engine) depGlobalInit(st *State, g *ssa.Global, id int) bool {
 		return true
 	case stunPath + ".Fingerprint", stunPath + ".bin":
 		return true
+	case "encoding/base64.StdEncoding", "encoding/base64.URLEncoding", "encoding/base64.RawStdEncoding":
+		return true // only used as receiver of stubbed methods
 	}
 	return false
 }
